@@ -181,12 +181,42 @@ def attack(sp, snap, node, prefix, absent_names):
     for k in present:
         if isinstance(node.kids[k], Node):
             sub = probe(lambda: snap[k])
-            if sub[0] == 'value':
+            if sub[0] == 'value' and isinstance(sub[1], StaticResourceMap):
                 attack(sp, sub[1], node.kids[k], prefix + (k,), absent_names)
                 sp.cover('attacked-submap')
 
 
-def h_static(sp, levels=((NAMES, 2), (SUB4, 2), (SUB2, 1)), rots=1):
+NEW_NAMES = ['new', 'n w']        # identifier / non-identifier, never used by build()
+
+
+def mutations(model):
+    """the phase-2 alphabet for this tree, deterministic order"""
+    out = []
+
+    def rec(node, path):
+        routes = ['direct'] + (['composite'] if path else [])
+        for name in NEW_NAMES:
+            for r in routes:
+                out.append(('add', path, name, r))
+        handles = [k for k in sorted(node.kids) if isinstance(node.kids[k], ValHandle)]
+        if handles:
+            for r in routes:
+                out.append(('replace', path, handles[0], r))
+        out.append(('clear', path, None, 'direct'))
+        for k in sorted(node.kids):
+            if isinstance(node.kids[k], Node):
+                rec(node.kids[k], path + (k,))
+    rec(model, ())
+    return out
+
+
+def node_at(model, path):
+    for k in path:
+        model = model.kids[k]
+    return model
+
+
+def h_static(sp, levels=((NAMES, 2), (SUB4, 2), (SUB2, 1)), rots=1, mutate=False):
     levels = [(list(a), b) for a, b in levels]
     rot = sp.choose(rots, 'value-rotation')
     cx = Ctx(rot)
@@ -200,6 +230,51 @@ def h_static(sp, levels=((NAMES, 2), (SUB4, 2), (SUB2, 1)), rots=1):
     compare(sp, snap, model, m, (), 'fresh snapshot', absent_names)
     attack(sp, snap, model, (), absent_names)
     compare(sp, snap, model, m, (), 'after setattr/delattr attempts', absent_names)
+    if mutate:
+        # phase 2: one mutation of the tree, then a FRESH snapshot must mirror the map as it is now
+        what, path, name, route = sp.pick(mutations(model), 'mutation')
+        node = node_at(model, path)
+        where = 'sub-map %r' % '/'.join(path) if path else 'root'
+        try:
+            if what == 'clear':
+                sp.note('phase 2: (%s).clear()' % where)
+                node.real.clear()
+                if node.kids:
+                    sp.cover('resnapshot-after-clear-nonempty')
+                node.kids = {}
+                sp.cover('resnapshot-after-clear')
+            else:
+                h = cx.handle()
+                if route == 'composite':
+                    key = '/'.join(path + (name,))
+                    sp.note('phase 2: m[%r] = %r   (%s)' % (key, h, what))
+                    m[key] = h
+                    sp.cover('resnapshot-after-composite-key')
+                else:
+                    sp.note('phase 2: (%s)[%r] = %r   (%s)' % (where, name, h, what))
+                    node.real[name] = h
+                    if path:
+                        sp.cover('resnapshot-after-direct-edit')
+                node.kids[name] = h
+                sp.cover('resnapshot-after-' + what)
+        except Exception as ex:         # noqa
+            sp.fail('harness-model', 'phase 2 mutation raised %r' % (ex,))
+        if path:
+            sp.cover('nested-mutation-resnapshot')
+            if len(path) >= 2:
+                sp.cover('deep-nested-mutation-resnapshot')
+        else:
+            sp.cover('root-mutation-resnapshot')
+        try:
+            snap2 = m.get_static_map()
+        except Exception as ex:         # noqa
+            sp.fail('snapshot-raises', 'second get_static_map() raised %r' % (ex,))
+        compare(sp, snap2, model, m, (), 'fresh snapshot after the mutation', absent_names + NEW_NAMES)
+        # nothing is claimed about what the old snapshot shows now, only that it stays read-only
+        attack(sp, snap, model, (), absent_names + NEW_NAMES)
+        attack(sp, snap2, model, (), absent_names)
+        compare(sp, snap2, model, m, (), 'second snapshot after setattr/delattr attempts',
+                absent_names + NEW_NAMES)
     sp.done()
 
 
@@ -208,14 +283,26 @@ _TAGS = ['layered', 'non-identifier', 'mangling-style', 'mangling-style-all-iden
          'attacked-submap']
 
 HARNESSES = {
-    'static': dict(fn=h_static, nontrivial=_TAGS, required=_TAGS),
+    'static': dict(fn=h_static, nontrivial=_TAGS + ['nested-mutation-resnapshot', 'root-mutation-resnapshot'],
+                   required=_TAGS),
 }
 
+_MUT_TAGS = ['nested-mutation-resnapshot', 'deep-nested-mutation-resnapshot', 'root-mutation-resnapshot',
+             'resnapshot-after-composite-key', 'resnapshot-after-direct-edit', 'resnapshot-after-clear',
+             'resnapshot-after-clear-nonempty', 'resnapshot-after-add', 'resnapshot-after-replace']
+_MUT_REQ = _TAGS + _MUT_TAGS
+
 TIERS = {
-    'quick': [('static', dict(levels=[[NAMES, 2], [SUB3B, 2], [SUB2, 1]], rots=1))],
+    'quick': [('static', dict(levels=[[NAMES, 2], [SUB3B, 2], [SUB2, 1]], rots=1)),
+              ('static', dict(levels=[[['a', 'b c'], 2], [SUB3B, 2], [SUB2, 1]], rots=1, mutate=True),
+               {'required': _MUT_REQ})],
     'thorough': [('static', dict(levels=[[NAMES, 3], [SUB3B, 2], [SUB2, 1]], rots=1)),
                  ('static', dict(levels=[[SUB5, 2], [SUB5, 2], [SUB3, 1]], rots=1)),
-                 ('static', dict(levels=[[NAMES, 2], [SUB3B, 2], [SUB2, 1]], rots=3))],
+                 ('static', dict(levels=[[NAMES, 2], [SUB3B, 2], [SUB2, 1]], rots=3)),
+                 ('static', dict(levels=[[SUB3B, 2], [SUB3B, 2], [SUB2, 1]], rots=1, mutate=True),
+                  {'required': _MUT_REQ}),
+                 ('static', dict(levels=[[NAMES, 2], [SUB2, 1], [['a'], 1]], rots=1, mutate=True),
+                  {'required': _MUT_REQ})],
 }
 BUDGET_S = {'quick': 300, 'thorough': 1500}
 
@@ -225,15 +312,22 @@ EXPLANATION = (
     'finite-domain solver variables, the tree is built through the public API, one snapshot is taken and '
     'compared node by node with the map ([] , attribute access for identifier names, get, absent names), '
     'then setattr/delattr is attempted on every snapshot node for present, absent and internal names and the '
-    'comparison is repeated.  z3 decides every fork; the explorer visits every feasible path inside the bounds.')
+    'comparison is repeated.  Entries with mutate=True add a second phase: one solver-chosen mutation of the tree '
+    '(add or replace a handle in the root or a nested sub-map, through a composite key on the root or directly on '
+    'the sub-map object, or clear() of a map), then a fresh get_static_map() is compared in full with the mutated '
+    'map; the old snapshot is only required to stay read-only.  z3 decides every fork; the explorer visits every feasible path inside the bounds.')
 RULE = ('one evaluation = one feasible path = one distinct tree shape; non-trivial = the tree has a layered '
         'handle, a non-identifier name, a name subject to private-name mangling, a sub-map, or a falsy resource')
 BOUNDS = {
     'quick': "names a,b,'b c','1x',class,_y,__x,__x__,e-acute,'' ; root map: every set of <=2 names x "
-             "{handle, layered handle, sub-map}; spine sub-map: <=2 names of a,'b c',__x; third level <=1 of a,__x",
+             "{handle, layered handle, sub-map}; spine sub-map: <=2 names of a,'b c',__x; third level <=1 of a,__x; "
+             "re-snapshot phase: root <=2 of a,'b c' with the same lower levels, x every mutation {add 'new' / "
+             "'n w', replace first handle, clear} x {root, each nested map} x {direct, composite key on the root}",
     'thorough': "root map: every set of <=3 of the 10 names x kinds, spine sub-map <=2 of a,'b c',__x, third "
                 "level <=1 of a,__x; root and second level <=2 of a,'b c',__x,class,'' with third level <=1 of "
-                "a,__x,1x; plus the quick universe with the three rotations of loaded values (token, None, 0)",
+                "a,__x,1x; plus the quick universe with the three rotations of loaded values (token, None, 0); "
+                "re-snapshot phase: root and spine <=2 of a,'b c',__x with third level <=1 of a,__x, and root <=2 "
+                "of the 10 names with spine <=1 of a,__x and third level <=1 of a, x every mutation",
 }
 ASSUMPTIONS = [
     'names colliding with members of the snapshot (get, _handle_names, attributes of object such as __class__, '
@@ -244,9 +338,11 @@ ASSUMPTIONS = [
     'per level only the first sub-map is expanded with the full choice, further sub-maps hold {a: handle}; '
     'get_static_map treats each map independently',
     'attribute access is exercised with getattr for every identifier name (keywords included)',
+    're-snapshot phase: "mirrors the map" is read as: the map as it is when get_static_map() is called; nothing is '
+    'asserted about what a snapshot taken before the mutation shows afterwards, only that it stays read-only',
 ]
 OUTSIDE = ['names colliding with snapshot members', 'mutation that bypasses setattr/delattr '
            '(object.__setattr__, vars(snapshot) when a __dict__ exists)', 'trees deeper than 3 or wider than the '
-           'bound', 'changes made to the map after the snapshot was taken']
+           'bound', 'what a snapshot taken before a mutation shows afterwards', 'more than one mutation between snapshots']
 
 TECHNIQUE = 'bounded symbolic execution (symx/z3) over tree shapes and name kinds, mirror oracle'
